@@ -95,6 +95,64 @@ example : (∀ i ∈ [NameItem.raw 65, .esc 50 48, .esc 50 102, .raw 98], i.ok) 
   simp at hi
   rcases hi with rfl | rfl | rfl | rfl <;> simp [NameItem.ok] <;> decide +kernel
 
+/-! ### hexadecimal strings -/
+
+/-- the hexadecimal digits of a body, white space (incl. NUL) removed -/
+def hexDigits (body : Bytes) : Bytes := body.filter (fun c => !isSPC c)
+
+/-- FULL statement (ISO 32000-1 7.3.4.3): `<` + hex digits of either case with white space anywhere +
+    `>` reads as the bytes of the digit pairs, a final odd digit being followed by an assumed 0. -/
+def C01_hex_statement : Prop :=
+  ∀ (body : Bytes), (∀ c ∈ body, isHEX c = true ∨ isSPC c = true) →
+    specLex (60 :: body ++ [62]) = [(0, Token.str (pairUp (hexDigits body)))]
+
+/-- Proved for an even number of digits (any case, white space anywhere, any position, any state
+    of the other parser attributes); the `>` leaves the tokenizer in `_parse_wclose`. -/
+theorem C01_hex_token_partial (st : St) (hm : st.mode = .main) (body : Bytes) (pos : Nat) (n : Nat)
+    (hb : ∀ c ∈ body, isHEX c = true ∨ isSPC c = true) (heven : (hexDigits body).length = 2 * n) :
+    foldBytes st (60 :: body ++ [62]) pos =
+      ({ st with tpos := pos + 1 + body.length, cur := [], mode := .wclose },
+       [(pos, Token.str (pairUp (hexDigits body)))]) :=
+  hex_spelling st hm body pos n hb heven
+
+/-- After the `>` of a hexadecimal string any byte but `>` is handled by the main scanner. -/
+theorem C01_hex_then (st : St) (hm : st.mode = .wclose) (d : UInt8) (p : Nat) (hd : d ≠ 62) :
+    stepByte st d p = stepByte { st with mode := .main } d p := by
+  have hd' : (d == 62) = false := by simpa using hd
+  rw [step_hit st d p (Or.inl (by simp [hm, searchClass]))]
+  simp [atHit, hm, parseWcloseHit, hd']
+
+theorem C01_hex_token_eof_partial (body : Bytes) (n : Nat)
+    (hb : ∀ c ∈ body, isHEX c = true ∨ isSPC c = true) (heven : (hexDigits body).length = 2 * n) :
+    specLex (60 :: body ++ [62]) = [(0, Token.str (pairUp (hexDigits body)))] := by
+  have hsp : isNONSPC 10 = false := by decide +kernel
+  unfold specLex
+  rw [foldBytes_append, C01_hex_token_partial St.init rfl body 0 n hb heven]
+  simp only [foldBytes]
+  rw [C01_hex_then _ rfl 10 _ (by decide)]
+  simp [stepByte, stepN, searchClass, hsp]
+
+/-- The pinned code breaks the full statement on an odd digit count: `<2>` reads as 0x02, ISO says 0x20
+    (open finding `odd-hex-digit`; the unit tests pin this behaviour). -/
+theorem C01_odd_hex_cex : specLex [60, 50, 62] = [(0, Token.str [2])] ∧ pairUp (hexDigits [50]) = [32] := by
+  constructor <;> decide +kernel
+
+theorem C01_hex_statement_fails : ¬ C01_hex_statement := by
+  intro h
+  have h1 := h [50] (by intro c hc; simp at hc; subst hc; left; decide +kernel)
+  have h2 := C01_odd_hex_cex
+  simp only [List.cons_append, List.nil_append] at h1
+  rw [h2.1, h2.2] at h1
+  exact absurd h1 (by decide)
+
+/-- Non-vacuity: `<4 1\x00 4a>` (white space and NUL inside, mixed case) meets the hypotheses. -/
+example : (∀ c ∈ ([52, 32, 49, 0, 52, 97] : Bytes), isHEX c = true ∨ isSPC c = true) ∧
+    (hexDigits [52, 32, 49, 0, 52, 97]).length = 2 * 2 ∧ pairUp (hexDigits [52, 32, 49, 0, 52, 97]) = [65, 74] := by
+  refine ⟨?_, by decide +kernel, by decide +kernel⟩
+  intro c hc
+  simp at hc
+  rcases hc with rfl | rfl | rfl | rfl | rfl | rfl <;> decide +kernel
+
 /-! ### nesting -/
 
 /-- top-level values read through `PDFStreamParser.nextobject`: everything but a bare `n g R` -/
